@@ -187,10 +187,10 @@ def run(ctx, rep):
                     and isinstance(n.value, ast.Call) and unparse(n.value.func).endswith("get_selfies_from_index")]
             if not defs:
                 probs.append("suffix does not count the symbols returned by get_selfies_from_index")
+            from rules.shared import emits_name
             loops = [n for n in own_nodes(frag.node) if isinstance(n, ast.For) and isinstance(n.iter, ast.Name) and n.iter.id == nm
-                     and any(isinstance(c, ast.Call) and isinstance(c.func, ast.Attribute) and c.func.attr == "append"
-                             and c.args and isinstance(c.args[0], ast.Name) and isinstance(n.target, ast.Name) and c.args[0].id == n.target.id
-                             for c in ast.walk(n))]
+                     and isinstance(n.target, ast.Name)
+                     and any(isinstance(c, ast.Call) and emits_name(ctx, frag, c, n.target.id) for c in ast.walk(n))]
             if not loops:
                 probs.append("the counted index symbols are not the ones emitted after the symbol")
         rep.ob("R4", not probs, node, frag, construct="suffix of %s" % tmpl, how="len(Q symbols), and exactly those symbols follow",
